@@ -2,17 +2,18 @@ package main
 
 import (
 	"context"
-	"sync/atomic"
 	"fmt"
 	"net"
+	"sync"
+	"sync/atomic"
 	"time"
 
 	"github.com/VolantMQ/vlapi/mqttp"
 	"github.com/VolantMQ/vlapi/vlauth"
-	persistenceMem "gitlab.com/VolantMQ/vlplugin/persistence/mem"
 	gws "github.com/gobwas/ws"
 	"github.com/gobwas/ws/wsutil"
 	"github.com/troian/healthcheck"
+	persistenceMem "gitlab.com/VolantMQ/vlplugin/persistence/mem"
 
 	"github.com/VolantMQ/volantmq/auth"
 	"github.com/VolantMQ/volantmq/configuration"
@@ -361,4 +362,44 @@ func runStalled(kind int) (*stallObs, string) {
 		}
 	}
 	return obs, ""
+}
+
+// stopRace: many clean sessions end their connections at the moment Manager.Stop walks the session map
+func stopRace(clients int) string {
+	b, err := NewBroker(BrokerOpts{})
+	if err != nil {
+		return err.Error()
+	}
+	var cls []*Client
+	for i := 0; i < clients; i++ {
+		cl := b.Dial()
+		if _, err := cl.Connect(ConnectOpts{ID: fmt.Sprintf("c%d", i), Ver: mqttp.ProtocolV311, Clean: true}); err != nil {
+			return err.Error()
+		}
+		cls = append(cls, cl)
+	}
+	start := make(chan struct{})
+	var wg sync.WaitGroup
+	for _, cl := range cls {
+		wg.Add(1)
+		go func(cl *Client) { defer wg.Done(); <-start; cl.Close() }(cl)
+	}
+	done := make(chan struct{})
+	go func() {
+		<-start
+		atomic.StoreInt32(&b.mgrDown, 1)
+		_ = b.Mgr.Stop()
+		_ = b.Mgr.Shutdown()
+		close(done)
+	}()
+	close(start)
+	wg.Wait()
+	select {
+	case <-done:
+	case <-time.After(10 * time.Second):
+		return "Stop did not return"
+	}
+	b.ShutdownTopics()
+	b.Drop2()
+	return ""
 }
